@@ -240,6 +240,47 @@ fn compare_on<P: Backend, C: Backend>(
     if nv == 0 || points.is_empty() {
         return true;
     }
+    // interval evaluator of the CHILD on the bounding box of the points (a
+    // subset of the traced domain): simplified tapes contain ops that fresh
+    // tapes never do (CopyReg, CopyImm), so interval soundness is re-checked here
+    {
+        let all_args: Vec<Vec<f32>> = points.iter().map(|pt| refsem::args_for(parent.vars(), flat, pt)).collect();
+        if all_args.iter().all(|a| a.iter().all(|x| !x.is_nan())) {
+            let ivs: Vec<Interval> = (0..nv)
+                .map(|v| {
+                    let lo = all_args.iter().map(|a| a[v]).fold(f32::INFINITY, f32::min);
+                    let hi = all_args.iter().map(|a| a[v]).fold(f32::NEG_INFINITY, f32::max);
+                    Interval::new(lo, hi)
+                })
+                .collect();
+            cx.add("evals", 1);
+            match evalkit::eval_interval(child, &ivs) {
+                Err(e) => {
+                    cx.violation(format!("{tag} child interval eval crash {}", panic_site(&e)), desc(), format!("{how}: {e}"));
+                    return false;
+                }
+                Ok((io, _)) => {
+                    for args in &all_args {
+                        let Ok((co, _)) = evalkit::eval_point(child, args) else { continue };
+                        for (o, v) in co.iter().enumerate() {
+                            if v.is_nan() || io[o].has_nan() {
+                                continue;
+                            }
+                            cx.add("child_interval_enclosure_checks", 1);
+                            if !crate::c03::contains(&io[o], *v, 4) {
+                                cx.violation(
+                                    format!("{tag} interval result of the simplified function does not enclose its point value"),
+                                    desc(),
+                                    format!("{how}: box {ivs:?} -> output {o} = [{:?}, {:?}], but at {args:?} the value is {v:?}", io[o].lower(), io[o].upper()),
+                                );
+                                return false;
+                            }
+                        }
+                    }
+                }
+            }
+        }
+    }
     // float-slice and grad-slice evaluators, all points as lanes
     let mut cols = vec![vec![0.0f32; points.len()]; nv];
     for (l, pt) in points.iter().enumerate() {
